@@ -8,7 +8,7 @@ use crate::jws::encode_kid;
 use crate::logs::HasLogger;
 use crate::storage;
 use crate::{AccountSync, EndpointSync};
-use acme_common::crypto::Csr;
+use acme_common::crypto::{Csr, X509Certificate};
 use acme_common::error::Error;
 use serde_json::json;
 use std::fmt;
@@ -225,7 +225,7 @@ pub async fn request_certificate(
 	drop(data_builder);
 
 	// Finalize the order by sending the CSR
-	let key_pair = certificate::get_key_pair(cert).await?;
+	let (key_pair, is_new_key_pair) = certificate::get_key_pair(cert).await?;
 	let domains: Vec<String> = cert
 		.identifiers
 		.iter()
@@ -285,6 +285,14 @@ pub async fn request_certificate(
 		.await
 		.map_err(HttpError::in_err)?;
 	drop(data_builder);
+	// Nothing is installed unless the CA returned a certificate, and a new key
+	// pair is written only now: a failed attempt must not leave a private key that
+	// does not match the installed certificate.
+	X509Certificate::from_pem(crt.as_bytes())
+		.map_err(|e| e.prefix("invalid certificate received"))?;
+	if is_new_key_pair {
+		certificate::store_key_pair(cert, &key_pair).await?;
+	}
 	storage::write_certificate(&cert.file_manager, crt.as_bytes()).await?;
 
 	cert.info(&format!(
